@@ -267,7 +267,7 @@ func init() {
 		Level: "exploration",
 		Rule: "metamorphic monitor (layout A vs layout B): each program gets a canonical rendering and k hostile ones: every separator kind (SP TAB VT FF CR LF CRLF U+0085 U+00A0, none where tokens may touch), comments with quotes/keywords/#/non-ASCII/raw bytes/NUL ended by CR, LF or end of input, ';' added after any statement and dropped where the next one cannot continue it, redundant parentheses around arbitrary sub-expressions. " +
 			"Compared with the canonical rendering: code and constants (from the program's parts), output, blocks, binding, error and diagnostic classes (positions excluded). Rejected programs (token-damaged) get whitespace/comment variation only. String literals with '#', ';', parentheses and every whitespace kind inside must reach the value byte for byte. " +
-			"distinct = hash of rendering; non-trivial = rendering differs from the canonical one and the pair was compared Also: every rendering is parsed through ParseFile in 1-3 random chunks and must compile to the same code; value-less literals and block names are generated and a rejected program must stay rejected under parenthesis / ';' variation; 70000-byte comments and whitespace runs and 17 MiB of comment lines / 18 MiB of blanks between two statements (whole and through 4096-byte pages), 100..4000 redundant parentheses; parentheses dropped around a 'not' operand that follows a sign or a binary operator wherever the harness's parser groups both texts alike (2268 fixed pairs and the generated programs).",
+			"distinct = hash of rendering; non-trivial = rendering differs from the canonical one and the pair was compared Also: every rendering is parsed through ParseFile in 1-3 random chunks and must compile to the same code; value-less literals and block names are generated and a rejected program must stay rejected under parenthesis / ';' variation; 70000-byte comments and whitespace runs and 17 MiB of comment lines / 18 MiB of blanks between two statements, 80 kB runs of two-byte blanks at even and odd offsets (whole, through 4096-byte pages, and dumped and loaded), 100..4000 redundant parentheses; parentheses dropped around a 'not' operand that follows a sign or a binary operator wherever the harness's parser groups both texts alike (2268 fixed pairs and the generated programs).",
 		Assumptions:   []string{"whole-input Parse (chunking is C07's matter)", "the independent separator-needed predicate decides where tokens may touch"},
 		MinNontrivial: 1000,
 		Run: func(c *core.Ctx) {
@@ -389,7 +389,7 @@ func init() {
 			}
 			// layout of extreme size: one comment or whitespace run of 70000 bytes between two tokens (streamed through
 			// the real 4096-byte pages and as one piece), and hundreds to thousands of redundant parentheses
-			for k := int64(0); k < 14; k++ {
+			for k := int64(0); k < 18; k++ {
 				i := n + 1000000 + k
 				if !c.Mine(i) {
 					continue
@@ -408,6 +408,10 @@ func init() {
 					variant = "var x = 7\nprint x + 2 * 3\ndef b { f = x }" + strings.Repeat("\t\r\n ", 20000)
 				case 4:
 					variant = strings.Repeat("\n", 66000) + "var x = 7 print x + 2 * 3 def b { f = x }"
+				case 14, 15, 16, 17:
+					// more than 64 KiB of two-byte blanks starting at an even / odd offset: the page boundaries fall inside characters
+					blank := []string{"\u00a0", "\u0085"}[k%2]
+					variant = "var x = 7\nprint x + 2 * 3" + []string{" ", "  "}[(k-14)/2] + strings.Repeat(blank, 40000) + "def b { f = x }\n"
 				case 12:
 					// layout beyond 16 MiB between two statements
 					variant = "var x = 7\nprint x + 2 * 3\n" + strings.Repeat("# ..............................................................\n", (17<<20)/64) + "def b { f = x }\n"
@@ -431,6 +435,23 @@ func init() {
 				if ferr != nil || !bytes.Equal(bcl.VerifProgParts(fp).Code, base.code) {
 					c.Violation("layout-changes-meaning:extreme-layout", fmt.Sprintf("a rendering with layout of extreme size (variant %d) read through 4096-byte pages: err=%v log=%q", k, ferr, core.Trunc(lg2.String(), 300)), map[string]any{"variant": k})
 					continue
+				}
+				// and the program compiled from that rendering survives dump and load
+				if d, derr, dpan, _ := dumpOf(fp); derr != nil || dpan != "" {
+					c.Violation("layout-changes-meaning:extreme-layout", fmt.Sprintf("a rendering with layout of extreme size (variant %d) cannot be dumped: %v %s", k, derr, dpan), map[string]any{"variant": k})
+					continue
+				} else {
+					var o3, l3 bytes.Buffer
+					q, lerr := bcl.LoadProg(bytes.NewReader(d), "in", bcl.OptOutput(&o3), bcl.OptLogger(&l3))
+					var xerr error
+					if lerr == nil {
+						_, _, xerr = bcl.Execute(q)
+					}
+					c.Eval(1)
+					if lerr != nil || xerr != nil || o3.String() != base.res.Out {
+						c.Violation("layout-changes-meaning:extreme-layout", fmt.Sprintf("a rendering with layout of extreme size (variant %d), dumped and loaded: load error %v, run error %v, output %q (expected %q)", k, lerr, xerr, core.Trunc(o3.String(), 80), base.res.Out), map[string]any{"variant": k})
+						continue
+					}
 				}
 				c.Count("extreme_layout_renderings", 1)
 				c.Nontrivial(core.Hash("extreme", k))
